@@ -16,7 +16,8 @@ def project(events: list[tuple], n_threads: int = 2) -> list[tuple[int, str]]:
     out: list[tuple[int, str]] = []
     holding = {0: False, 1: False}
     started = False
-    joined = 0
+    in_save_state = False       # inside ControlThread.save_state (a runtime save); the final save is
+                                # launch()'s own call of the state store, outside any such call
     unwinding = False
     final = False
     done = False
@@ -69,6 +70,10 @@ def project(events: list[tuple], n_threads: int = 2) -> list[tuple[int, str]]:
                     a = "cRun"
                 elif obj.startswith("worker["):
                     a = f"cSpawnWorker {TID[obj[7:-1]]}"
+            elif kind == "interrupt" and str(obj).startswith("boot:"):
+                started = True
+                unwinding = True
+                a = "cExc"
             elif not started:
                 a = None
             elif kind == "try_pause_call":
@@ -102,11 +107,13 @@ def project(events: list[tuple], n_threads: int = 2) -> list[tuple[int, str]]:
             elif kind == "shutdown_ret":
                 a = "cShutdownRet"
             elif kind == "save_state_call":
+                in_save_state = True
                 a = "cSave"
             elif kind == "save_state_ret":
+                in_save_state = False
                 a = "cSaveRet"
             elif kind == "save_begin":
-                final = joined >= n_threads
+                final = not in_save_state
                 a = "cFinalSaveBegin" if final else "cSaveBegin"
             elif kind == "save_end":
                 a = "cFinalSaveEnd" if final else "cSaveEnd"
@@ -116,6 +123,8 @@ def project(events: list[tuple], n_threads: int = 2) -> list[tuple[int, str]]:
                 a = "cSaveCbEnd"
             elif kind in ("cb_raise", "savecond_raise", "interrupt", "save_raise", "save_state_raise",
                           "try_pause_raise", "resume_raise", "shutdown_raise"):
+                if kind == "save_state_raise":
+                    in_save_state = False
                 if final:
                     done = True          # a failing final save ends launch() with that exception
                 elif not unwinding:
@@ -127,8 +136,9 @@ def project(events: list[tuple], n_threads: int = 2) -> list[tuple[int, str]]:
                 a = "cUptime"
             elif kind == "read" and obj.startswith("exc["):
                 a = f"cReadExc {TID[obj[4:-1]]} {int(val)}"
+            elif kind == "read" and obj.startswith("alive["):
+                a = f"cIsAlive {TID[obj[6:-1]]} {int(bool(val))}"
             elif kind == "join":
-                joined += 1
                 a = f"cJoin {TID[obj]}"
             elif kind == "launch_returned":
                 a = "cReturn"
